@@ -354,6 +354,10 @@ func runProgCheck(pc *ProgCheck, tier string) *evid.Report {
 
 	// 2. evaluate in worker processes
 	results := make([]*Result, len(jobs))
+	// which worker process evaluated a job, and after which others (for history-dependent failures)
+	type slot struct{ epoch, pos int }
+	slotOf := make([]slot, len(jobs))
+	var epochs [][]int
 	var mu sync.Mutex
 	next := 0
 	timedOut := false
@@ -363,6 +367,7 @@ func runProgCheck(pc *ProgCheck, tier string) *evid.Report {
 		go func() {
 			defer wg.Done()
 			var w *worker
+			epoch := -1
 			defer func() {
 				if w != nil {
 					w.kill()
@@ -386,6 +391,10 @@ func runProgCheck(pc *ProgCheck, tier string) *evid.Report {
 						r.Internal("cannot start worker: " + err.Error())
 						return
 					}
+					mu.Lock()
+					epoch = len(epochs)
+					epochs = append(epochs, nil)
+					mu.Unlock()
 				}
 				res, alive := w.run(j)
 				if !alive {
@@ -393,6 +402,8 @@ func runProgCheck(pc *ProgCheck, tier string) *evid.Report {
 				}
 				mu.Lock()
 				results[j.idx] = &res
+				slotOf[j.idx] = slot{epoch, len(epochs[epoch])}
+				epochs[epoch] = append(epochs[epoch], j.idx)
 				mu.Unlock()
 			}
 		}()
@@ -456,35 +467,92 @@ func runProgCheck(pc *ProgCheck, tier string) *evid.Report {
 	r.Extra["counters"] = counts
 	r.Extra["programs"] = len(jobs)
 
-	// 4. confirm each failure representative twice more (determinism)
+	// 4. confirm each failure representative twice more (determinism): in a fresh process first; a
+	// failure that needs the programs evaluated before it by the same process (state kept between
+	// analyses) is confirmed, twice, with the shortest suffix of that history which shows it
 	if fails := r.Failures(); len(fails) > 0 && len(fails) <= 200 {
-		w, err := startWorker(pc.ID, tier)
-		if err == nil {
-			for _, f := range fails {
-				if strings.HasSuffix(f.Clause, "/"+pc.FatalClause) && pc.FatalClause != "" {
-					continue
-				}
-				for k := 0; k < 2; k++ {
-					if w == nil {
-						w, _ = startWorker(pc.ID, tier)
-					}
-					res, alive := w.run(job{idx: 0, family: f.Family, vec: f.Vector})
-					if !alive {
-						w = nil
-					}
-					found := false
-					for _, g := range res.Failures {
-						if g.Clause == f.Clause && g.Sig == f.Sig {
-							found = true
-						}
-					}
-					if !found {
-						r.Internal(fmt.Sprintf("failure %s/%s on vector %v did not reproduce (uncaptured nondeterminism)", f.Clause, f.Sig, f.Vector))
-					}
+		jobIdx := map[string]int{}
+		for _, j := range jobs {
+			jobIdx[j.family+":"+vecArg(j.vec)] = j.idx
+		}
+		shows := func(w *worker, f *evid.Failure) (bool, bool) {
+			res, alive := w.run(job{idx: 0, family: f.Family, vec: f.Vector})
+			for _, g := range res.Failures {
+				if g.Clause == f.Clause && g.Sig == f.Sig {
+					return true, alive
 				}
 			}
-			if w != nil {
+			return false, alive
+		}
+		withHistory := func(f *evid.Failure, hist []int) bool {
+			for k := 0; k < 2; k++ {
+				w, err := startWorker(pc.ID, tier)
+				if err != nil {
+					return false
+				}
+				ok := true
+				for _, ji := range hist {
+					if _, alive := w.run(jobs[ji]); !alive {
+						ok = false
+						break
+					}
+				}
+				found := false
+				if ok {
+					found, _ = shows(w, f)
+				}
 				w.kill()
+				if !found {
+					return false
+				}
+			}
+			return true
+		}
+		for _, f := range fails {
+			if strings.HasSuffix(f.Clause, "/"+pc.FatalClause) && pc.FatalClause != "" {
+				continue
+			}
+			fresh := true
+			for k := 0; k < 2 && fresh; k++ {
+				w, err := startWorker(pc.ID, tier)
+				if err != nil {
+					break
+				}
+				fresh, _ = shows(w, f)
+				w.kill()
+			}
+			if fresh {
+				continue
+			}
+			ji, ok := jobIdx[f.Family+":"+vecArg(f.Vector)]
+			var hist []int
+			if ok {
+				sl := slotOf[ji]
+				hist = epochs[sl.epoch][:sl.pos]
+			}
+			confirmed := false
+			for _, n := range []int{1, 4, 16, 64, 256, len(hist)} {
+				if n > len(hist) {
+					n = len(hist)
+				}
+				if n == 0 {
+					break
+				}
+				suffix := hist[len(hist)-n:]
+				if withHistory(f, suffix) {
+					for _, hi := range suffix {
+						f.History = append(f.History, evid.Step{Family: jobs[hi].family, Vector: jobs[hi].vec})
+					}
+					f.Detail += fmt.Sprintf("\n(history-dependent: shown only after the %d program(s) evaluated before it by the same process; a fresh process does not show it)", n)
+					confirmed = true
+					break
+				}
+				if n == len(hist) {
+					break
+				}
+			}
+			if !confirmed {
+				r.Internal(fmt.Sprintf("failure %s/%s on vector %v did not reproduce, neither in a fresh process nor after the history of its worker (uncaptured nondeterminism)", f.Clause, f.Sig, f.Vector))
 			}
 		}
 	}
@@ -520,6 +588,9 @@ func Replay(file string) int {
 	if !ok {
 		fmt.Fprintln(os.Stderr, "no replayer for", f.Property)
 		return 2
+	}
+	for _, st := range f.History {
+		evalOne(root.family(st.Family), "quick", 0, st.Vector)
 	}
 	pc := root.family(f.Family)
 	res := evalOne(pc, "quick", 0, f.Vector)
